@@ -291,7 +291,7 @@ func RandFloat(r *Rand) float64 {
 	case 2: // small exact integers
 		return float64(r.Intn(1 << 20))
 	case 3: // around 2^53
-		return float64((1 << 53) - 500 + r.Intn(1000))
+		return float64(int64(1<<53) - 500 + int64(r.Intn(1000)))
 	case 4: // min normal neighbourhood
 		return math.Float64frombits(0x0010000000000000 - 500 + uint64(r.Intn(1000)))
 	case 5: // powers of two +-
